@@ -591,10 +591,21 @@ func H_C05_dropped_update_leaves_no_claim() {
 	t := nondetString()
 	assume(t != own) // the own container of create/update requests is handled by the fold harnesses
 	pidsA, pidsB := nondetInt64(), nondetInt64()
-	uA := &ContainerUpdate{ContainerId: t, Linux: &LinuxContainerUpdate{Resources: &LinuxResources{Pids: &api.LinuxPids{Limit: pidsA}}}}
+	resA := &LinuxResources{Pids: &api.LinuxPids{Limit: pidsA}}
+	itB := oneItem(f)
+	var itA []sItem
+	if f == famHugepage || f == famUnified {
+		// A also owns another page size / unified key, so that the ownership map of the family already exists
+		// when B's update is rolled back
+		itA = oneItem(f)
+		assume(itA[0].key != itB[0].key)
+		ra := buildResources(f, itA)
+		resA.HugepageLimits, resA.Unified = ra.HugepageLimits, ra.Unified
+	}
+	uA := &ContainerUpdate{ContainerId: t, Linux: &LinuxContainerUpdate{Resources: resA}}
 	err := r.apply(wrapUpdates(kind, []*ContainerUpdate{uA}), ps[0])
 	vassert(err == nil, "first-update-rejected")
-	resB := buildResources(f, oneItem(f))
+	resB := buildResources(f, itB)
 	resB.Pids = &api.LinuxPids{Limit: pidsB}
 	uB := &ContainerUpdate{ContainerId: t, Linux: &LinuxContainerUpdate{Resources: resB}, IgnoreFailure: true}
 	// the same response carries a second, unrelated update (of another container): it must not be lost
@@ -605,6 +616,9 @@ func H_C05_dropped_update_leaves_no_claim() {
 	err = r.apply(wrapUpdates(kind, []*ContainerUpdate{uB, uB2}), ps[1])
 	vassert(err == nil, "ignored-failure-failed-the-request")
 	last := oneItem(f)
+	if len(itA) > 0 {
+		assume(last[0].key != itA[0].key)
+	}
 	resC := buildResources(f, last)
 	uC := &ContainerUpdate{ContainerId: t, Linux: &LinuxContainerUpdate{Resources: resC}}
 	err = r.apply(wrapUpdates(kind, []*ContainerUpdate{uC}), ps[1+choose(2)])
@@ -643,10 +657,17 @@ func H_C05_dropped_update_leaves_no_claim() {
 	want := buildResources(f, last)
 	switch f {
 	case famHugepage:
-		vassert(len(res.HugepageLimits) == 1 && res.HugepageLimits[0].PageSize == want.HugepageLimits[0].PageSize &&
-			res.HugepageLimits[0].Limit == want.HugepageLimits[0].Limit, "field-of-the-last-update")
+		// A's page size and the last update's, nothing of the dropped one
+		vassert(len(res.HugepageLimits) == 2, "field-of-the-last-update")
+		found := false
+		for _, l := range res.HugepageLimits {
+			if l.PageSize == want.HugepageLimits[0].PageSize && l.Limit == want.HugepageLimits[0].Limit {
+				found = true
+			}
+		}
+		vassert(found, "field-of-the-last-update")
 	case famUnified:
-		vassert(len(res.Unified) == 1, "field-of-the-last-update")
+		vassert(len(res.Unified) == 2, "field-of-the-last-update")
 		for k, v := range want.Unified {
 			g, ok := res.Unified[k]
 			vassert(ok && g == v, "field-of-the-last-update")
@@ -658,5 +679,43 @@ func H_C05_dropped_update_leaves_no_claim() {
 			vassert(g.num == w.num && g.str == w.str, "field-of-the-last-update")
 		}
 	}
+	cover("done")
+}
+
+// H_C01_claims_survive_a_dropped_update: plugin A sets field f (19 fields incl. a hugepage size and a unified
+// key) and the pids limit of container t; plugin B's ignore-failure update conflicts on the pids limit and is
+// dropped (rolled back); plugin C then sets A's f on t: that is still a conflict - rolling back B's update
+// must not forget A's claims.
+//verif:property C01
+//verif:instances 19
+//verif:expect-cover done
+func H_C01_claims_survive_a_dropped_update() {
+	f := dropFams[instance()]
+	shape("fam=" + famNames[f])
+	kind := choose(3)
+	shape("req=" + reqNames[kind])
+	r, own := symUpdateResult(kind, f, 0)
+	ps := symPlugins(3)
+	t := nondetString()
+	assume(t != own)
+	itA := oneItem(f)
+	resA := buildResources(f, itA)
+	resA.Pids = &api.LinuxPids{Limit: nondetInt64()}
+	err := r.apply(wrapUpdates(kind, []*ContainerUpdate{{ContainerId: t, Linux: &LinuxContainerUpdate{Resources: resA}}}), ps[0])
+	vassert(err == nil, "first-update-rejected")
+	resB := &LinuxResources{Pids: &api.LinuxPids{Limit: nondetInt64()}}
+	if f == famHugepage || f == famUnified {
+		// B also names another key of the family before it fails on the pids limit
+		itB := oneItem(f)
+		assume(itB[0].key != itA[0].key)
+		rb := buildResources(f, itB)
+		resB.HugepageLimits, resB.Unified = rb.HugepageLimits, rb.Unified
+	}
+	err = r.apply(wrapUpdates(kind, []*ContainerUpdate{{ContainerId: t, Linux: &LinuxContainerUpdate{Resources: resB}, IgnoreFailure: true}}), ps[1])
+	vassert(err == nil, "ignored-failure-failed-the-request")
+	itC := oneItem(f)
+	itC[0].key = itA[0].key
+	err = r.apply(wrapUpdates(kind, []*ContainerUpdate{{ContainerId: t, Linux: &LinuxContainerUpdate{Resources: buildResources(f, itC)}}}), ps[2])
+	vassert(err != nil, "undetected-update-collision-after-a-dropped-update")
 	cover("done")
 }
